@@ -25,7 +25,7 @@ impl Command for CapFalse {
     }
 }
 
-pub const WRAPPERS: &[&str] = &["direct", "if", "elseif", "while", "not", "alias"];
+pub const WRAPPERS: &[&str] = &["direct", "if", "elseif", "while", "not", "alias", "alias_stored"];
 
 fn script_for(wrapper: &str, n: usize) -> String {
     let refs: String = (1..=n).map(|i| format!(" ${{v{}}}", i)).collect();
@@ -36,6 +36,8 @@ fn script_for(wrapper: &str, n: usize) -> String {
         "while" => format!("while cap{}\nend\n", refs),
         "not" => format!("x = not cap{}\n", refs),
         "alias" => format!("alias myc cap\nmyc{}\n", refs),
+        // the first value is stored when the alias is defined, the others are given at the call
+        "alias_stored" => if n == 0 { "alias myc cap\nmyc\n".to_string() } else { let rest: String = (2..=n).map(|i| format!(" ${{v{}}}", i)).collect(); format!("alias myc cap ${{v1}}\nmyc{}\n", rest) },
         _ => unreachable!(),
     }
 }
@@ -208,7 +210,7 @@ pub fn record(args: &[String]) {
             if plain && r.chance(1, 3) { v = format!("{} {}\\", v, v); }
             vals.push(v);
         }
-        let w = WRAPPERS[1 + r.below(5)];
+        let w = WRAPPERS[1 + r.below(6)];
         let got = rig.observe(w, &vals, &extra);
         let env: Vec<Value> = vals.iter().enumerate().map(|(i, v)| json!({"k": cps(&format!("v{}", i + 1)), "v": cps(v)})).collect();
         let (invoked, recv) = match &got { Ok(Some(g)) => (true, g.clone()), _ => (false, vec![]) };
